@@ -346,6 +346,8 @@ EXEMPT_CALLEES = {
     "simplelog::loggers::termlog::TermLogger::init": "logger set-up: falls back to the plain logger; no file-system effect",
     "std::thread::local::LocalKey::<T>::try_with": "AccessError (thread-local storage already destroyed) is not the failure of a "
                                                    "step that produces the destination; the caller falls back to a fresh value",
+    "crossbeam_channel::channel::Receiver::<T>::recv": "RecvError says only that the queue is closed and drained: the normal end of the work, not a failed step",
+    "std::sync::mpsc::Receiver::<T>::recv": "RecvError says only that the queue is closed and drained: the normal end of the work, not a failed step",
     "ignore::gitignore::GitignoreBuilder::add": "an absent .gitignore is the normal case and the API reports it the same way as "
                                                 "partial parse errors, which git itself tolerates; reading .gitignore is not one of the steps C04 lists",
 }
@@ -422,6 +424,8 @@ def _tolerated():
 def _ident_matches(ident, tol):
     if isinstance(ident, (set, frozenset)):
         # the edge is taken when the error is any member: it is a tolerated edge only if every member is tolerated
+        # (wrapper variants picked up on the way to the constant -- the `Err` around the error -- are not identities)
+        ident = set(i for i in ident if i not in ("Err", "Ok", "Some", "None"))
         return bool(ident) and all(_ident_matches(i, tol) for i in ident)
     if ident in tol:
         return True
